@@ -21,7 +21,7 @@ Proof.
   { apply forallb_forall. intros c Hc. apply forallb_forall with (x := c) in Hp; [|assumption].
     apply andb_true_iff in Hp. tauto. }
   split; [destruct v; [discriminate|discriminate]|]. split; [assumption|].
-  destruct (quote_cases p Hdq v q Hq Hpl) as [-> | ->]; [left|right; reflexivity].
+  destruct (quote_cases_plain p Hdq v q Hq Hpl) as [-> | ->]; [left|right; reflexivity].
   rewrite str_eqb_refl in Hb. auto.
 Qed.
 
@@ -300,14 +300,19 @@ Definition demo_reflect (nm : option str) (col : str) : option (list (option str
   | RaiseIndexError => None
   end.
 
-(* a constraint name containing a double quote comes back with the quote still doubled *)
-Theorem uq_name_dquote_refuted : demo_reflect (Some [97; 34; 98]) [120] = Some [(Some [97; 34; 34; 98], [[120]])].
+(* a constraint name containing a double quote comes back as it was given (repaired by /repo ae21374; it used to
+   come back with the quote still doubled) *)
+Example uq_name_dquote_roundtrip : demo_reflect (Some [97; 34; 98]) [120] = Some [(Some [97; 34; 98], [[120]])].
 Proof. vm_compute. reflexivity. Qed.
+(* what remains outside the guard [dq_ok]: a quote followed by white space and a UNIQUE clause inside the name *)
+Definition evil_name : str := [120; 34; 32; 85; 78; 73; 81; 85; 69; 32; 40; 121].        (* x, a double quote, then " UNIQUE (y" *)
+Theorem uq_name_dquote_space_refuted : demo_reflect (Some evil_name) [120] <> Some [(Some evil_name, [[120]])].
+Proof. vm_compute. discriminate. Qed.
 (* a constraint name containing a newline comes back as None *)
 Theorem uq_name_newline_refuted : demo_reflect (Some [97; 10; 98]) [120] = Some [(None, [[120]])].
 Proof. vm_compute. reflexivity. Qed.
-(* a bare (legal, unquoted) constraint name containing $ comes back as None *)
-Theorem uq_name_dollar_refuted : demo_reflect (Some [98; 36]) [120] = Some [(None, [[120]])].
+(* a bare (legal, unquoted) constraint name containing $ comes back (repaired by /repo 24f65cc; it used to be None) *)
+Example uq_name_dollar_roundtrip : demo_reflect (Some [98; 36]) [120] = Some [(Some [98; 36], [[120]])].
 Proof. vm_compute. reflexivity. Qed.
 (* column names: $ in a bare name truncates it; a double quote splits it; ")" ends the list early; with a
    newline the constraint is not found at all - in each case the signature no longer equals the autoindex's
@@ -327,5 +332,7 @@ Proof. vm_compute. reflexivity. Qed.
 (* the guards are satisfiable: an ordinary table *)
 Example wf_demo : prep_dq demo_prep = true /\
   wf_parts no_uni demo_prep (demo_parts (Some [117; 113; 32; 49]) [97; 32; 98]) = true /\
-  wf_parts no_uni demo_prep (demo_parts (Some [117; 113]) [120]) = true.
-Proof. vm_compute. auto. Qed.
+  wf_parts no_uni demo_prep (demo_parts (Some [117; 113]) [120]) = true /\
+  wf_parts no_uni demo_prep (demo_parts (Some [97; 34; 98]) [120]) = true /\
+  wf_parts no_uni demo_prep (demo_parts (Some [98; 36]) [120]) = true.
+Proof. vm_compute. auto 6. Qed.
